@@ -4,7 +4,7 @@ from concurrent.futures import ThreadPoolExecutor
 from .. import common, gen, pipefam, cachefam
 
 RULE = ("histories over {run with any subset of --reset_h5/--revise_anno, edit genes, edit TEs (move/add/remove), change windows (to a superset, a subset, the same number of windows, the same first and last window, a shifted list), touch "
-        "an input, edit an input while keeping its old mtime, backdate a cache file} on one output directory, through the "
+        "an input, edit an input while keeping its old mtime, backdate a cache file, a run killed while the revised annotation or one of its three passes is being written} on one output directory, through the "
         "real command line under the launcher (observe mode). Every run is one correspondence case: the directory BEFORE the run is "
         "abstracted into Model/Cache.v's state (contents identified against fresh-directory references, freshness flags from "
         "os.path.getmtime as the code compares them), the model's run is evaluated in Coq (vm_compute), and the files rewritten, the "
@@ -25,6 +25,11 @@ DIRECTED = [
     [("run", False, False), ("editT_keep_mtime", 2), ("run", False, False), ("run", True, True)],
     [("run", False, False), ("backdate", "O", 0), ("editT", 1), ("run", False, True), ("run", True, True)],
     [("run", False, False), ("editW", 2), ("run", False, False), ("editW", 1), ("run", False, True), ("run", True, False)],
+    [("run", False, False), ("editW", 1), ("run", False, False), ("editW", 2), ("run", False, False), ("run", False, True)],
+    [("run", False, False), ("editW", 2), ("run", False, False), ("editW", 0), ("run", False, False)],
+    # a killed run between edits: the refresh must still give the results of a fresh directory (c13_refresh holds from ANY disk)
+    [("run", False, False), ("editT", 1), ("killrun", False, True, "replace", "G_order_revision_cache.tsv", "before"), ("editT", 2), ("run", True, True)],
+    [("run", False, False), ("editT", 2), ("killrun", True, True, "replace", "G_nameless_revision_cache.tsv", "after"), ("editT", 1), ("editG", 1), ("run", True, True), ("run", True, True)],
     [("run", False, False), ("editW", 1), ("run", True, False), ("editW", 2), ("run", False, False), ("editW", 0), ("run", False, False)],
 ]
 
@@ -49,8 +54,11 @@ def gen_history(r, nmax):
             h.append(("touchT",))
         elif k < 0.92:
             h.append(("editT_keep_mtime", r.randint(0, 2)))
-        else:
+        elif k < 0.96:
             h.append(("backdate", r.choice(["G", "T", "O"]), r.randint(0, 1)))
+        else:
+            base = r.choice(["G_superfam_revision_cache.tsv", "G_order_revision_cache.tsv", "G_nameless_revision_cache.tsv", "Revised_tes.tsv"])
+            h.append(("killrun",) + r.choice(FLAGS[2:]) + ("replace", base, r.choice(["before", "after"])))
     if h[-1][0] != "run":
         h.append(("run",) + r.choice(FLAGS + [(True, True)]))
     return h
@@ -88,6 +96,13 @@ def play(w, hist):
     recs = []
     since = []      # ops since the previous run
     for op in hist:
+        if op[0] == "killrun":
+            # the command is started and the whole process group is killed at the given file operation (if it is reached)
+            _, reset, revise, tkind, tbase, variant = op
+            w.run(reset=reset, revise=revise, spec={"mode": "crash", "target": {"kind": tkind, "base": tbase, "n": 0}, "variant": variant})
+            since.append(op)
+            time.sleep(0.015)
+            continue
         if op[0] != "run":
             apply_edit(w, op)
             since.append(op)
@@ -138,8 +153,12 @@ def run_world(args):
     import random
     r = random.Random(chk_seed * 1000 + wi)
     case = gen.gen_pair(r, max_chrom=2, max_genes=3, max_tes=10, min_chrom=1 + (wi % 2))
+    if wi < 2:
+        f, d, l = case["windows"]
+        if len(range(f, l + 1, d)) < 3:       # the directed window histories need a list that has proper sub-lists
+            case["windows"] = [f, d, f + 2 * d]
     # the worlds that play the directed histories get the window changes a sloppy guard would accept (version 1)
-    base = cachefam.World(case, r, wkinds={0: ("superset", "same_count"), 1: ("subset", "same_ends")}.get(wi))
+    base = cachefam.World(case, r, wkinds={0: ("superset", "same_count"), 1: ("drop_first", "subset")}.get(wi))
     out = []
     try:
         base.all_refs()
